@@ -157,10 +157,22 @@ package classifier
 //@   modifies d.f
 //@   props C10 C09 C04
 //@
+//@ // C01 (prefilter): a document whose every token occurs in the input at
+//@ // least as often as in the document is never rejected by the token-frequency
+//@ // prefilter: its similarity is exactly 1.0, at least any threshold <= 1.
+//@ spec dominates(d *indexedDocument, o *indexedDocument) bool = forall t tokenID :: (t in o.f.counts) ==> d.f.counts[t] >= o.f.counts[t]
+//@ prove ratio-of-equals-is-one
+//@   arith bv
+//@   claim forall n int :: n > 0 ==> float64(n) / float64(n) == 1.0
+//@   props C01
+//@
 //@ func (*indexedDocument).tokenSimilarity
 //@   requires d != nil && d.f != nil && o != nil && o.f != nil
+//@   ensures dominates(d, o) && len(o.f.counts) > 0 ==> result == 1.0
 //@   modifies nothing
-//@   props C10 C09 C04
+//@   uses ratio-of-equals-is-one
+//@   loop 1 invariant 0 <= hits && hits <= nvisited() && (dominates(d, o) ==> hits == nvisited())
+//@   props C10 C09 C04 C01
 //@
 //@ func (*indexedDocument).size
 //@   requires d != nil
@@ -369,7 +381,7 @@ package classifier
 //@   ensures result0 == 0.0 || (lastDist >= 0 && result0 == confOf(len(known.Tokens), lastDist))
 //@   ghostset lastDist = result after scoreDiffs
 //@   modifies nothing
-//@   props C10 C03 C02 C09 C04
+//@   props C10 C03 C02 C09 C04 C01
 //@
 // ---------------------------------------------------------------- classifier.go: names
 //
@@ -598,7 +610,7 @@ package classifier
 //@   loop 2 invariant same(pseudoMs, id.Matches) && len(pseudoMs) <= len(candidates) && (forall k int :: 0 <= k && k < len(pseudoMs) ==> candidates[k] == pseudoMs[k])
 //@   loop 3 invariant same(pseudoMs, id.Matches) && len(pseudoMs) <= len(candidates) && (forall k int :: 0 <= k && k < len(pseudoMs) ==> candidates[k] == pseudoMs[k])
 //@   loop 4 invariant forall k int :: 0 <= k && k < len(pseudoMs) ==> (exists j int :: 0 <= j && j < len(candidates) && candidates[j] == pseudoMs[k])
-//@   props C10 C03 C08 C09 C04 C02 C06
+//@   props C10 C03 C08 C09 C04 C02 C06 C01
 //@
 //@ func (*Classifier).MatchFrom
 //@   requires wfClassifier(c) && 0.0 <= c.threshold && c.threshold <= 1.0
